@@ -22,6 +22,7 @@ SEMANTIC = [
     (re.compile(r'precondition not satisfied'), 'precondition'),
     (re.compile(r'invariant not satisfied at end of loop body'), 'loop-invariant-preserved'),
     (re.compile(r'invariant not satisfied before loop'), 'loop-invariant-entry'),
+    (re.compile(r'loop invariant not satisfied'), 'loop-invariant-preserved'),
     (re.compile(r'possible arithmetic underflow/overflow'), 'arith-overflow'),
     (re.compile(r'possible division by zero'), 'division-by-zero'),
     (re.compile(r'possible bit shift underflow/overflow'), 'arith-overflow'),
